@@ -46,7 +46,8 @@ def world_cfg(case):
            "handler": "answer"}
     return {"peers": peers, "apps": [app], "default_dial": "inprogress",
             "node_timers": {"idle": 5000, "dwa": 5000, "cer": 5000, "cea": 5000, "wakeup": case.get("wakeup", 2)},
-            "sched_seed": case.get("seed", 0), "yield_all": case.get("yield_all", False)}
+            "sched_seed": case.get("seed", 0), "yield_all": case.get("yield_all", False),
+            "policy": "random" if case.get("seed", 0) % 2 else "fifo"}
 
 
 def evaluate(case) -> Result:
@@ -118,6 +119,7 @@ def evaluate(case) -> Result:
         for sec in range(horizon + 1):
             now_off = w.k.now - t_stop
             # peers react to a DPR
+            batched = []
             for i, c in enumerate(conns):
                 if i not in pending_reactions or c.node_closed or c.peer_closed:
                     continue
@@ -126,7 +128,10 @@ def evaluate(case) -> Result:
                     continue
                 react = pending_reactions[i]
                 if react == "prompt" or (react == "late" and now_off >= case["conns"][i].get("delay", 2)):
-                    w.feed_msg(c, {"k": "DPA", "host": c.host or f"peer{i + 1}.example", "hbh": dprs[0].h["hbh"], "e2e": dprs[0].h["e2e"]})
+                    # DPAs of several peers arrive in the same instant: fed without running the node in between
+                    w.feed_msg(c, {"k": "DPA", "host": c.host or f"peer{i + 1}.example", "hbh": dprs[0].h["hbh"], "e2e": dprs[0].h["e2e"]},
+                               run=False)
+                    batched.append(i)
                     t_dpa[i] = w.k.now
                     del pending_reactions[i]
                 elif react == "dpa-pending-output":
@@ -149,6 +154,10 @@ def evaluate(case) -> Result:
                     w.peer_reset(c)
                     t_dpa[i] = w.k.now
                     del pending_reactions[i]
+            if batched:
+                w.run()
+                if len(batched) > 1:
+                    res.classes.append("simultaneous-dpas")
             for (off, with_cer) in case.get("newcomers", []):
                 if off == sec and box["done"] is False:
                     nc_ = w.accept("10.1.1.77")
@@ -257,6 +266,11 @@ def shard_main(shard, nshards, tier, scale):
     for react in REACTIONS:
         jobs.append({"conns": [{"state": "ready", "reaction": "prompt"}, {"state": "ready", "reaction": react, "same_host": True, "delay": 2}],
                      "force": False, "wait": 5, "wakeup": 2, "newcomers": []})
+    for n_ready in (2, 3):
+        for seed in range(8):
+            for ya in (False, True):
+                jobs.append({"conns": [{"state": "ready", "reaction": "prompt"}] * n_ready, "force": False, "wait": 6,
+                             "wakeup": 2, "newcomers": [], "seed": seed, "yield_all": ya})
     jobs.append({"conns": [], "force": False, "wait": 3, "wakeup": 2, "newcomers": [[0, True]]})
     jobs.append({"conns": [], "force": True, "wait": 3, "wakeup": 1, "newcomers": []})
     if shard == 0:
@@ -294,7 +308,7 @@ def run(tier, scale=1.0):
     for d in hyp.pool_run(shard_main, (tier, scale)):
         rec.merge(d)
     required = {f"state:{s}": 1 for s in set(STATES)} | {f"reaction:{r}": 1 for r in REACTIONS} | \
-               {"second-connection-of-a-peer": 1, "force:True": 1, "newcomers:2": 1, "nconns:3": 1, "reconnect-inside:True": 1, "app:threading": 1}
+               {"simultaneous-dpas": 1, "second-connection-of-a-peer": 1, "force:True": 1, "newcomers:2": 1, "nconns:3": 1, "reconnect-inside:True": 1, "app:threading": 1}
     return finish(rec, tier=tier, level="exploration", rule=RULE, assumptions=ASSUME, t0=t0,
                   required_classes=required)
 
